@@ -4,6 +4,7 @@ mod c04;
 mod c05;
 mod c06;
 mod c08;
+mod c09;
 mod c10;
 mod c11;
 mod c12;
@@ -41,6 +42,7 @@ fn dispatch(cmd: &str) -> Option<RunFn> {
 		"c20" => c20::run,
 		"c05" => c05::run,
 		"c04" => c04::run,
+		"c09" => c09::run,
 		"c15" => c15::run,
 		"c18" => c18::run,
 		"c11" => c11::run,
